@@ -97,7 +97,7 @@ def pattern(draw, C, S, allow_pol=False):
         if allow_pol:
             names += ['polhwp', 'polhwp']
     if rank >= 1:
-        names += ['PPt', 'PtP', 'PtP', 'XXt', 'XtX', 'pack']
+        names += ['PPt', 'PtP', 'PtP', 'XXt', 'XtX', 'pack', 'P_other']
     if rank >= 2:
         names += ['move', 'move']
     name = draw(st.sampled_from(names))
@@ -199,6 +199,26 @@ def pattern(draw, C, S, allow_pol=False):
             i = C.define({'k': 'index', 'in': inS, 'idx': idx, 'explicit_out': True if 'm' in ent else draw(st.booleans()),
                           'unique': None, 'bare': False})
         return [{'tok': ['P', i]}, {'tok': ['PT', i]}], name
+    if name == 'P_other':
+        # near miss: P_b next to the transpose of ANOTHER selection P_a with the same structures. No documented
+        # pattern: it must stay, and must not stop a genuine P @ P.T elsewhere in the chain from being rewritten
+        m = shape[0]
+        n = draw(st.integers(m + 1, m + 2))
+        inS = St.map_leaves(S, lambda sh, dt: ((n,) + tuple(sh[1:]), dt))
+        kind_ = draw(st.sampled_from(['index', 'index', 'pack']))
+        ids = []
+        for _ in range(2):
+            vals = list(draw(st.permutations(list(range(n)))))[:m]
+            if kind_ == 'index':
+                ids.append(C.define({'k': 'index', 'in': inS, 'idx': [{'a': vals}], 'explicit_out': True,
+                                     'unique': draw(st.sampled_from([True, None])), 'bare': False}))
+            else:
+                ids.append(C.define({'k': 'pack', 'in': inS, 'mask': [j in vals for j in range(n)]}))
+        if draw(st.booleans()):
+            return [{'tok': ['P', ids[0]]}, {'tok': ['PT', ids[1]]}], name  # S <- U <- S
+        # P_a.T @ P_b on the larger space is only possible when the chain lives there: use S as the small side
+        return [{'tok': ['P', ids[1]]}, {'tok': ['PT', ids[0]]}] + _ctx(draw, C, S, 0, 1) + \
+            [{'tok': ['P', ids[0]]}, {'tok': ['PT', ids[0]]}], name
     if name == 'pack':
         m = shape[0]
         n = draw(st.integers(m, m + 2))
